@@ -39,3 +39,9 @@ func VerifReplicator(p Partition, nodeID models.NodeID) Replicator {
 func VerifRecovery(p Partition, leader models.NodeID) error {
 	return p.recovery(leader)
 }
+
+// VerifReplicatorReady reports whether the replicator is in the ready state.
+func VerifReplicatorReady(r Replicator) bool {
+	s := r.State()
+	return s != nil && s.state == models.ReplicatorReadyState
+}
